@@ -1,6 +1,6 @@
 SPECIFICATION SpecAll
 CONSTANTS
-  MaxAdd = 5
+  MaxAdd = 4
   Prims <- NoPrims
   Arrivals <- OneArrival
   HashRank <- GHashRank
@@ -8,8 +8,8 @@ CONSTANTS
   OpKinds <- AllKinds
   PhaseAdds = 0
   ObsKind = "none"
-  Depth = 8
-INVARIANTS TypeOK LiveExact LeavesChildless QueryLaws BestIsBestLeaf ChainCovers Discarded
+  Depth = 6
+INVARIANTS TypeOK LiveExact LeavesChildless QueryLaws BestIsBestLeaf ObsAgree ChainCovers Discarded
 PROPERTIES PruneExact HeadMonotone FailedChangesNothing OnlyDescendantsSucceed
 VIEW View
 CHECK_DEADLOCK FALSE
